@@ -232,11 +232,24 @@ def handleInline (req : Json) : Except String Json := do
             ("var", spaceJson em.var), ("node", spaceJson em.node)])]
     return Json.mkObj out
 
+def handleNames (req : Json) : Except String Json := do
+  let j ← req.getObjVal? "nameData"
+  let k ← j.getObjValAs? String "k"
+  let d : NameData := {
+    users := ← j.getObjValAs? (List String) "users"
+    varBases := ← j.getObjValAs? (List String) "varBases"
+    inlines := ← j.getObjValAs? (List String) "inlines"
+    nodeNames := ← j.getObjValAs? (List String) "nodeNames" }
+  return Json.mkObj [("safe", toJson (d.safe k))]
+
 /-- One request (a JSON value) in, one response (a JSON value) out. -/
 def handle (req : Json) : Json :=
   let r := match req.getObjVal? "eval" with
     | .ok _ => handleEval req
-    | .error _ => handleInline req
+    | .error _ =>
+      match req.getObjVal? "nameData" with
+      | .ok _ => handleNames req
+      | .error _ => handleInline req
   match r with
   | .ok j => j
   | .error e => Json.mkObj [("error", e)]
